@@ -84,11 +84,14 @@ def rtdc_copy(src_h5file: h5py.Group,
             #           dst_loc=dst_h5file["tables"],
             #           dst_name=meta_prefix + tkey,
             #           recursive=False)
-            dst_h5file["tables"].create_dataset(
+            tab = dst_h5file["tables"].create_dataset(
                 name=tkey,
                 data=src_h5file["tables"][tkey][:],
                 fletcher32=True,
                 **hdf5plugin.Zstd(clevel=5))
+            # also copy the table attributes (metadata)
+            for akey in src_h5file["tables"][tkey].attrs:
+                tab.attrs[akey] = src_h5file["tables"][tkey].attrs[akey]
 
     # events
     if isinstance(features, list):
